@@ -42,12 +42,26 @@ StrValF(D, P, i) ==
 
 NameOK(D, c, test) == D.kind[c] = "E" /\ (test = "*" \/ D.nm[c] = test)
 
+\* positional predicate of a child step (optional field pos of the step: "1", "2", "last"): `n[1]`, `n[2]`, `n[last()]`.
+\* XPath 1.0 2.4: the position of c is its rank, in document order, among the nodes the step selects from the *same*
+\* context node - for the child axis the children of c's parent that pass the node test; text siblings in between do not
+\* count and do not interrupt the count; last() is the size of that set.
+StepPos(s) == IF "pos" \in DOMAIN s THEN s.pos ELSE ""
+PosOK(D, P, c, s) ==
+  StepPos(s) = "" \/
+  LET sibs == {j \in P : D.par[j] = D.par[c] /\ NameOK(D, j, s.test)}
+      rank == Cardinality({j \in sibs : j <= c})
+  IN CASE StepPos(s) = "1" -> rank = 1
+       [] StepPos(s) = "2" -> rank = 2
+       [] StepPos(s) = "last" -> rank = Cardinality(sibs)
+
 RECURSIVE SelSteps(_, _, _, _, _)
 \* nodes selected by steps[k..] from context set ctx over present nodes P
 SelSteps(D, P, steps, k, ctx) ==
   IF k > Len(steps) THEN ctx
   ELSE LET s == steps[k]
            nxt == {c \in P : /\ NameOK(D, c, s.test)
+                             /\ PosOK(D, P, c, s)
                              /\ IF s.axis = "child" THEN D.par[c] \in ctx
                                 ELSE IF s.axis = "parent" THEN \E q \in ctx : q > 0 /\ D.par[q] = c       \* `..` / `../n`
                                 ELSE \* antchfx/xpath v1.1.11 evaluates `x//n` as descendant-or-self::n of x
